@@ -11,6 +11,7 @@ import (
 	"reflect"
 	"sort"
 	"strings"
+	"time"
 
 	"verif/refmodel"
 	"verif/spec"
@@ -27,6 +28,7 @@ type RespHeader struct {
 	Array    bool   `json:"array"`
 	Type     string `json:"type"`
 	Format   string `json:"format,omitempty"`
+	Layout   string `json:"layout,omitempty"` // goag's private time-layout extension (a Go layout literal), "" = RFC 3339
 }
 
 type RespDecl struct {
@@ -474,6 +476,9 @@ func respProp(p *Pkg, _ *Pkg, payload json.RawMessage, res *Result) {
 							good := map[string]string{"string": "a", "integer": "7", "number": "1.5", "boolean": "true"}[h.Type]
 							if h.Format == "date-time" {
 								good = "2020-01-02T03:04:05Z"
+								if h.Layout != "" {
+									good = time.Date(2020, 1, 2, 3, 4, 5, 0, time.UTC).Format(h.Layout)
+								}
 							}
 							switch hdrKind {
 							case "present":
